@@ -744,11 +744,14 @@ func waitFor(d time.Duration, cond func() bool) bool {
 	}
 }
 
+// watchdog is the generous bound on every wait of a case. Its expiry alone is
+// never a violation (the monitors then look for a decision on state); it only
+// costs time when something is already wrong.
 func watchdog(tier string) time.Duration {
 	if tier == "thorough" {
-		return 60 * time.Second
+		return 120 * time.Second
 	}
-	return 30 * time.Second
+	return 60 * time.Second
 }
 
 func pick[T any](r *rand.Rand, xs ...T) T { return xs[r.Intn(len(xs))] }
